@@ -99,7 +99,7 @@ package fasthttp
 //@   ensures[more] more == (old(len(s.b)) > 0)
 //@   ensures[rest-is-a-suffix] more ==> rgn(s.b) == rgn(old(s.b)) && off(s.b) + len(s.b) == off(old(s.b)) + old(len(s.b)) && len(s.b) < old(len(s.b))
 //@   ensures[rest-after-first-comma] more ==> (len(s.b) == 0 && (forall j in [0, old(len(s.b))): old(s.b[j]) != ',')) ||
-//@                          (off(s.b) - off(old(s.b)) >= 1 && old(s.b[off(s.b) - off(old(s.b)) - 1]) == ',' && (forall j in [0, off(s.b) - off(old(s.b)) - 1): old(s.b[j]) != ','))
+//@                          (off(s.b) - off(old(s.b)) >= 1 && old(s.b)[off(s.b) - off(old(s.b)) - 1] == ',' && (forall j in [0, off(s.b) - off(old(s.b)) - 1): old(s.b[j]) != ','))
 //@   ensures[last-element] more && (forall j in [0, old(len(s.b))): old(s.b[j]) != ',') ==> len(s.b) == 0 &&
 //@                         rgn(s.value) == rgn(old(s.b)) && off(old(s.b)) <= off(s.value) && off(s.value) + len(s.value) <= off(old(s.b)) + old(len(s.b)) &&
 //@                         (old(s.b[0]) != ' ' && old(s.b[len(s.b)-1]) != ' ' ==> off(s.value) == off(old(s.b)) && len(s.value) == old(len(s.b))) &&
@@ -116,7 +116,9 @@ package fasthttp
 //@   pure
 //@   ensures[first-or-last-close] sameSlice(value, strClose) && (closeFirst(s, len(s)) || closeLast(s, len(s))) ==> r
 //@   loop 1:
-//@     invariant[suffix] rgn(vs.b) == rgn(s) && off(s) <= off(vs.b) && off(vs.b) + len(vs.b) == off(s) + len(s) && (off(vs.b) == off(s) || s[off(vs.b) - off(s) - 1] == ',')
+//@     invariant[suffix-rgn] rgn(vs.b) == rgn(s)
+//@     invariant[suffix-off] off(s) <= off(vs.b) && off(vs.b) + len(vs.b) == off(s) + len(s)
+//@     invariant[after-comma] off(vs.b) == off(s) || len(vs.b) == 0 || s[off(vs.b) - off(s) - 1] == ','
 //@     invariant[first-still-ahead] sameSlice(value, strClose) && closeFirst(s, len(s)) ==> off(vs.b) == off(s)
 //@     invariant[last-still-ahead] sameSlice(value, strClose) && closeLast(s, len(s)) ==> len(vs.b) >= 5
 //@     decreases len(vs.b)
